@@ -42,7 +42,7 @@ META = dict(
          "(noise ~1e-9), tolerance 1e-6 relative. Not covered: flex / skin / light frames, flex-edge and flex-strain "
          "constraint rows, wrapping tendons, mj_jacSum beyond rigid bodies, contact rows other than sphere-plane / "
          "sphere-sphere (their distance derivative needs C13's closed forms). Ball-limit rows at angle < 1e-3 (|.| not "
-         "differentiable) and camera look-at frames within 1e-6 of the vertical are excluded by counted rules. The internal "
+         "differentiable), frictionless rows of (nearly) concentric spheres and camera look-at frames within 1e-6 of the vertical are excluded by counted rules. The internal "
          "sparse routines are called through their exported symbols with chains built by the engine's own mj_bodyChain / "
          "mj_mergeChain.",
     design_ref="DESIGN.md §3 C07")
@@ -455,6 +455,11 @@ def check_efc(c, q, st, fd):
                 ang = 2 * np.arctan2(np.linalg.norm(qq[1:]), abs(qq[0]))
                 if ang < 1e-3 or ang > PI - 1e-3:
                     skip = True           # |angle| is not differentiable at 0; wraps at pi
+            if t == CON_FL:
+                cc = con[i]
+                g1, g2 = int(cc["geom"][0]), int(cc["geom"][1])
+                if mv.geom_type[g1] == 2 and mv.geom_type[g2] == 2 and cc["dist"] + mv.geom_size[g1][0] + mv.geom_size[g2][0] < 1e-3:
+                    skip = True           # (nearly) concentric spheres: |c2 - c1| is not differentiable, the normal is arbitrary
             if skip:
                 c.part.add("boundary_excluded", 1)
             else:
@@ -633,6 +638,8 @@ def check_model(lib, part, par, js, pv, feat, thorough=False):
     qs = A.qpos_lattice(m, limit=12)
     if c.cons and not thorough:
         qs = qs[:8]
+    if len(par) >= 4:
+        qs = qs[:6]
     vs = A.qvel_lattice(nv, units=False)[1:]
     if nv:
         vs = vs + [np.array([(-1.0) ** (i // 2) * (0.4 + 0.25 * ((i * 7) % 5)) for i in range(nv)])]
@@ -719,7 +726,7 @@ def run(ctx):
     ctx.rule = ("all rooted ordered forests with <=3 bodies x full product of the joint menu %s per body (free only on roots) x placement "
                 "variant pv (all 3 for <=2 bodies%s; body frame / joint axis / anchor / inertial-frame kind S,G,I,R / ref / mocap root "
                 "rotate with body index + pv) x features {plain, constraints+dense+elliptic, constraints+sparse+pyramidal}%s; per model "
-                "a covering lattice of <=12 configurations (<=8 for the constraint variants in the quick tier; scalars {0,.37,-1.3}, quaternions {id, 90deg, (.5,.5,.5,.5), pi-1e-9}), 2 "
+                "a covering lattice of <=12 configurations (<=8 for the constraint variants in the quick tier, 6 for 4 bodies; scalars {0,.37,-1.3}, quaternions {id, 90deg, (.5,.5,.5,.5), pi-1e-9}), 2 "
                 "alternating velocity patterns; central differences eps=1e-6 along mj_integratePos for every dof. non-trivial = (model,state) with "
                 "nv>=3 or a branching forest"
                 % (list(A.JOINTS), "; 3 bodies: pv = index mod 3 and plain + one constraint variant alternating with index div 3" if not ctx.thorough else " and 3 bodies",
